@@ -12,7 +12,7 @@ import os, re, sys, json, random, struct, subprocess, hashlib, fnmatch
 from concurrent.futures import ThreadPoolExecutor
 
 ROOT = os.path.dirname(os.path.dirname(os.path.abspath(__file__)))
-HELPER = os.path.join(ROOT, "build/bin/c06_abi")
+HELPER = os.environ.get("C06_ABI_HELPER") or os.path.join(ROOT, "build/bin/c06_abi")
 NCPU = os.cpu_count() or 4
 
 # ------------------------------------------------------------------------------------------------------------------
@@ -1160,7 +1160,24 @@ def replay(part, path, known_keys):
     print("REPLAY-OK")
     return 0
 
+def _standalone_run(seed, n):
+    """python3 fw/c06_abi.py --run SEED N : part A alone (used for sensitivity runs with C06_ABI_HELPER pointing to a mutant build)."""
+    known = []
+    for line in open(os.path.join(ROOT, "known_findings.txt")):
+        m = re.match(r"known:\s+property=C06\s+key=(\S+)", line)
+        if m: known.append(m.group(1))
+    import tempfile
+    d = tempfile.mkdtemp(prefix="c06abi-")
+    part = dict(quick=dict(sigs_per_abi=n, light_sigs=n))
+    res = run(part, "quick", seed, d, d, known, print)
+    print("evaluations", res["evaluations"], "nontrivial", res["nontrivial_evals"], "known", res["known_hits"])
+    for k, pth, m in res["violations"]: print("VIOLATION", k, "::", m[:400])
+    for nn in res["notes"]: print("NOTE", nn[:300])
+    return 1 if res["violations"] else 0
+
 if __name__ == "__main__":
+    if sys.argv[1] == "--run":
+        sys.exit(_standalone_run(int(sys.argv[2]), int(sys.argv[3])))
     # ad-hoc: python3 fw/c06_abi.py "abi=sysv64 va=255 ret=void args=i32,f32"
     sig = parse_sig_text(sys.argv[1])
     abi = ABI_BY_NAME[sig["abi"]]
